@@ -57,7 +57,7 @@ class DateTimeProperty(PropertyProtocol):
         if isinstance(value, str):
             try:
                 isoparse(value)  # make sure it's a valid value
-            except ValueError as e:
+            except (ValueError, OverflowError) as e:  # e.g. 9999-12-31T24:00 rolls over into a year that doesn't exist
                 return PropertyError(f"Invalid datetime: {e}")
             return Value(python_code=f"isoparse({value!r})", raw_value=value)
         return PropertyError(f"Cannot convert {value} to a datetime")
